@@ -118,8 +118,19 @@ func checkAtMostOnce(e *env, prop string) {
 		redirects int
 		steps     []int
 		conns     []int
+		answered  []bool // per execution: the client had read the whole reply frame from the connection
 	}
 	seen := map[string]*info{}
+	frameEnd := map[[2]int]int{}
+	for _, l := range e.sim.Links {
+		off := 0
+		for _, f := range l.S.OutLog {
+			off += f.Bytes
+			if !f.Push {
+				frameEnd[[2]int{l.ID, f.ConnSeq}] = off
+			}
+		}
+	}
 	for _, ex := range e.sim.W.Log {
 		if ex.Queued || ex.Conn < 0 || len(ex.Argv) < 3 || ex.Argv[0] != "VWTAG" {
 			continue
@@ -140,6 +151,14 @@ func checkAtMostOnce(e *env, prop string) {
 		in.execs++
 		in.steps = append(in.steps, ex.Step)
 		in.conns = append(in.conns, ex.Conn)
+		answered := false
+		if l := e.sim.LinkOf(ex.Conn); l != nil {
+			nread, _, _, _, _ := l.C.Stats()
+			if end, ok := frameEnd[[2]int{ex.Conn, ex.ConnSeq}]; ok && end <= nread {
+				answered = true
+			}
+		}
+		in.answered = append(in.answered, answered)
 	}
 	writes := 0
 	e.eachCall(func(task int, spec CallSpec, rec *sched.CallRec, res *CallResult) {
@@ -166,6 +185,26 @@ func checkAtMostOnce(e *env, prop string) {
 							rule = "executed-twice-after-lifetime-expiry"
 							how = fmt.Sprintf("after connection %d ended %v after it was opened (ConnLifetime %d ms) with %d reply bytes outstanding", l.ID, l.EndedAt.Sub(l.AcceptedAt), lt, l.UndeliveredAtEnd)
 							break
+						}
+					}
+					// not covered by the known finding: the client had already read the reply of an earlier execution
+					// (judged where the client can tell: single commands, and batches on the pipelined path - the
+					// synchronous path overwrites every result of a batch that fails midway)
+					// "again" = on a connection opened after the client had closed the one that carried the answer (a command
+					// written first and delivered late - bytes written before a close still reach the server - is the
+					// original, not a re-send)
+					if spec.Kind == "do" || e.plan.Opt.AlwaysPipelining {
+						for i, a := range in.answered {
+							la := e.sim.LinkOf(in.conns[i])
+							if !a || la == nil || la.C.ClientClosedStep() < 0 {
+								continue
+							}
+							for j := range in.conns {
+								if lb := e.sim.LinkOf(in.conns[j]); j != i && lb != nil && lb.AcceptStep > la.C.ClientClosedStep() {
+									rule = "answered-write-executed-again"
+									how = fmt.Sprintf("although the client had read the reply of the execution on connection %d before it closed that connection (step %d) and opened connection %d (step %d)", la.ID, la.C.ClientClosedStep(), lb.ID, lb.AcceptStep)
+								}
+							}
 						}
 					}
 				}
